@@ -178,6 +178,14 @@ class ReusableOptimizer(PathOptimizer):
         else:
             return self._suboptimizer_kwargs.get("minimize", "flops")
 
+    def _score_tree(self, tree):
+        """The score stored in the cache alongside the path of ``tree``. It is
+        always computed with this optimizer's own objective, whoever writes
+        the entry (a search or ``update_from_tree``), so that
+        ``overwrite='improved'`` compares like with like.
+        """
+        return tree.get_score(self.minimize)
+
     def update_from_tree(self, tree, overwrite="improved"):
         """Explicitly add the contraction that ``tree`` represents into the
         cache. For example, if you have manually improved it via reconfing.
@@ -193,13 +201,14 @@ class ReusableOptimizer(PathOptimizer):
             If ``True`` always overwrite, if ``False`` only overwrite if the
             contraction is missing, if ``'improved'`` only overwrite if the new
             path is better (the default). Note that the comparison of scores
-            is based on default objective of the tree.
+            is based on the objective of this optimizer (``self.minimize``),
+            the same that scores the results of its own searches.
         """
         h, missing = self.hash_query(tree.inputs, tree.output, tree.size_dict)
 
         new_con = {
             "path": tree.get_path(),
-            "score": tree.get_score(),
+            "score": self._score_tree(tree),
             "sliced_inds": tuple(tree.sliced_inds),
         }
 
